@@ -308,14 +308,23 @@ func eval(r *ev.Run, c Case) {
 	if c.Proto == 4 {
 		p := pkt.V4{Op: 1, HType: 1, HLen: 6, Xid: 0x13131313, Flags: 0x8000, Opts: []pkt.Opt4{{Code: 53, Data: []byte{1}}}}
 		copy(p.CHAddr[:], []byte{2, 0, 0, 0, 0, 0x13})
-		out = srv.Run4(net.Interface{}, hs4, p.Bytes(), 1, nil)
+		if srv.Instrumented() {
+			// through the real Serve loop: what is dispatched is what arrives on the socket
+			out = srv.Serve4(net.Interface{}, hs4, [][]byte{p.Bytes()}, 1)
+		} else {
+			out = srv.Run4(net.Interface{}, hs4, p.Bytes(), 1, nil)
+		}
 		if len(out.Sent) == 1 {
 			rep, _ := pkt.ParseV4(out.Sent[0].Data)
 			gotTrail, _ = rep.Get(trail4)
 		}
 	} else {
 		m := pkt.Msg6{Type: 1, Xid: [3]byte{1, 3, 1}, Opts: []pkt.Opt6{{Code: 1, Data: []byte{0, 3, 0, 1, 2, 0, 0, 0, 0, 0x13}}}}
-		out = srv.Run6(net.Interface{}, hs6, m.Bytes(), 1, &net.UDPAddr{IP: net.ParseIP("2001:db8::1"), Port: 546})
+		if srv.Instrumented() {
+			out = srv.Serve6(net.Interface{}, hs6, [][]byte{m.Bytes()}, 1, &net.UDPAddr{IP: net.ParseIP("2001:db8::1"), Port: 546})
+		} else {
+			out = srv.Run6(net.Interface{}, hs6, m.Bytes(), 1, &net.UDPAddr{IP: net.ParseIP("2001:db8::1"), Port: 546})
+		}
 		if len(out.Sent) == 1 {
 			rep, _ := pkt.Parse6(out.Sent[0].Data)
 			if rep.Msg != nil {
